@@ -536,6 +536,17 @@ func (qi *QuotaInfo) UpdatePodIsAssigned(pod *v1.Pod, isAssigned bool) error {
 	return nil
 }
 
+// getCachedPod returns the cached object of the pod, nil if the quota does not hold the pod.
+func (qi *QuotaInfo) getCachedPod(pod *v1.Pod) *v1.Pod {
+	qi.lock.RLock()
+	defer qi.lock.RUnlock()
+
+	if podInfo, exist := qi.PodCache[generatePodCacheKey(pod)]; exist {
+		return podInfo.pod
+	}
+	return nil
+}
+
 func (qi *QuotaInfo) GetPodCache() map[string]*v1.Pod {
 	qi.lock.RLock()
 	defer qi.lock.RUnlock()
